@@ -90,24 +90,26 @@ def run(tier, seed):
     wd = workdir(PID)
     quick = tier == "quick"
     shapes, nshapes = gen_shapes(wd)
-    if quick:
-        # a rotating sixth of the catalogue per run; every shape of the small formats
-        sub = os.path.join(wd, "shapes_quick.ndjson")
-        with open(shapes) as f, open(sub, "w") as g:
-            for i, line in enumerate(f):
-                if (i + seed) % 6 == 0 or '"fmt":"gzip"' in line or '"fmt":"scr"' in line or '"fmt":"rom"' in line:
-                    g.write(line)
-        shapes = sub
+    parts = 8 if quick else 12
 
     def mc():
-        return tlc("MC_Loader", "MC_Loader_TRUE.cfg", PID, "mc", workers=4, deque=False, timeout=900)
+        return tlc("MC_Loader", "MC_Loader_TRUE.cfg", PID, "mc", workers=2 if quick else 4, deque=False, timeout=900)
 
-    def cases():
-        trace = os.path.join(wd, "cases.ndjson")
-        restarts = run_cases(trace, ["--shapes", shapes, "--seed", seed, "--random", 300 if quick else 20000])
-        return (trace, restarts) + validate(trace, "cases")
+    def part(k):
+        t = os.path.join(wd, f"cases{k}.ndjson")
+        return t, run_cases(t, ["--shapes", shapes, "--seed", seed, "--random", 300 if quick else 20000, "--part", k, "--parts", parts])
 
-    r_mc, (trace, restarts, r, n, mm) = parallel([mc, cases])
+    res = parallel([mc] + [lambda k=k: part(k) for k in range(parts)])
+    r_mc = res[0]
+    trace = os.path.join(wd, "cases.ndjson")
+    restarts = 0
+    with open(trace, "w") as g:
+        for t, rs in res[1:]:
+            restarts += rs
+            with open(t) as f:
+                g.write(f.read())
+            os.remove(t)
+    r, n, mm = validate(trace, "cases")
     if not r_mc.ok:
         chk.violation(f"MC_Loader: {r_mc.error}")
     judge(chk, trace, mm)
@@ -131,12 +133,13 @@ def run(tier, seed):
     chk.cov.update({
         "evaluations": n,
         "distinct_nontrivial": sum(1 for (k, o), v in kinds.items() for _ in range(v) if o != "ok"),
-        "rule": ("cases = (a) every malformed shape of Loader.tla's catalogue (quick: a rotating sixth) turned into bytes: SNA sizes around every "
+        "rule": ("cases = (a) every malformed shape of Loader.tla's catalogue turned into bytes: SNA sizes around every "
                  "boundary x IM x border x latch; SZX magic/machine id/chunk id x declared size (exact, short, zero, over, 0xFFFFFFF0) x content "
                  "variants, single chunks and pairs; TAP length fields against missing bytes; SCR sizes; ROM page counts/sizes; VTX id/stereo/player "
                  "frequency/size field/string count/body; gzip valid/bad magic/truncated/bad CRC/empty/bomb; (b) six well-formed files through an "
                  "asset that fails with Err or Ok(0) at request k for k = 0..39, and with 1-byte reads; (c) mutated headers, mutated bytes, truncations "
-                 "and random strings. Non-trivial = the loader did not return Ok. After every case 20 frames are emulated (tapes: a fast-load request, "
+                 "and random strings; (d) field sweep: every header byte, chunk size byte and the first 8 data bytes of every chunk of well-formed SZX files "
+                 "(48K stored and compressed, 128K compressed), the SNA headers and 128K trailer, TAP length fields, each set to 0,1,2,3,7,8,9,16,127,128,254,255. Non-trivial = the loader did not return Ok. After every case 20 frames are emulated (tapes: a fast-load request, "
                  "then real-time play)."),
         "samples": [json.loads(line_of(trace, k)) for k in (1, 2, 3)],
         "shapes_in_catalogue": nshapes,
